@@ -884,6 +884,12 @@ def _r5(repo, L, m, ba):
                     oks, whys = False, f"an input scaffold is skipped as a whole ({type(x).__name__.lower()} under {conds or 'no condition'}): contigs of it that no lookup returned are never re-added (lost)"
     L.check(oks, "R5", addm.short + ":no-scaffold-skip", "no input scaffold is skipped as a whole", whys, addm.loc(), witness={"input": "a scaffold the Pretext map covers only in part (texel-snapped tail contig)"})
     ok = len(inner) == 1 and norm(inner[0].iter) in (f"{sv}.idx_fragments()", f"enumerate({sv}.rows)")
+    if not ok:
+        # refuted only by an iteration that is recognisably partial (a slice, a filter, a comprehension with a condition)
+        its_ = [l_.iter for l_ in inner]
+        partial = any(isinstance(x_, ast.Slice) or (isinstance(x_, ast.Call) and dotted(x_.func) in ("filter", "itertools.islice", "islice")) or (isinstance(x_, ast.comprehension) and x_.ifs) for it_ in its_ for x_ in ast.walk(it_))
+        if not partial:
+            raise AnalysisError(f"{addm.short}: how the re-add loop walks the fragments of an input scaffold is not understood ({[norm(i_)[:40] for i_ in its_]})")
     L.check(ok, "R5", addm.short + ":fragments", "every fragment row visited", "re-add does not visit every fragment of an input scaffold", addm.loc())
     if not ok:
         return
